@@ -659,6 +659,7 @@ pub fn probe_set_iterators(rebuild: &dyn Fn() -> SetSut, s: &mut SetSut, univers
     if n <= 6 {
         let ids: Vec<u8> = full.iter().map(|e| e.0).collect();
         for mask in 0..(1u32 << n) {
+            crate::crumbs::touch();
             let sel = |id: u8| ids.iter().position(|&x| x == id).map_or(false, |p| mask >> p & 1 == 1);
             let total = (0..n).filter(|p| mask >> p & 1 == 1).count();
             for (cut, fin) in (0..=total).flat_map(|c| [(c, 0u8), (c, 1u8)]) {
